@@ -23,6 +23,29 @@ use std::io::{BufRead, Write};
 
 use val::*;
 
+/// counts the bytes requested from the allocator (C10: allocation in proportion to the input)
+pub struct Counting;
+pub static REQUESTED: std::sync::atomic::AtomicUsize = std::sync::atomic::AtomicUsize::new(0);
+unsafe impl std::alloc::GlobalAlloc for Counting {
+    unsafe fn alloc(&self, l: std::alloc::Layout) -> *mut u8 { REQUESTED.fetch_add(l.size(), std::sync::atomic::Ordering::Relaxed); unsafe { std::alloc::System.alloc(l) } }
+    unsafe fn dealloc(&self, p: *mut u8, l: std::alloc::Layout) { unsafe { std::alloc::System.dealloc(p, l) } }
+    unsafe fn realloc(&self, p: *mut u8, l: std::alloc::Layout, n: usize) -> *mut u8 { REQUESTED.fetch_add(n.saturating_sub(l.size()), std::sync::atomic::Ordering::Relaxed); unsafe { std::alloc::System.realloc(p, l, n) } }
+}
+#[global_allocator]
+static ALLOC: Counting = Counting;
+/// run `f`, return its result, the bytes it requested from the allocator, and the time it took
+pub fn measured<R>(f: impl FnOnce() -> R) -> (R, usize, std::time::Duration) {
+    let a0 = REQUESTED.load(std::sync::atomic::Ordering::Relaxed);
+    let t0 = std::time::Instant::now();
+    let r = f();
+    (r, REQUESTED.load(std::sync::atomic::Ordering::Relaxed) - a0, t0.elapsed())
+}
+/// the C10 bound: requested bytes linear in the input (the constant covers the struct itself and the first buckets of its containers)
+pub fn check_bounded(o: &mut Oracle, what: &str, input_len: usize, alloc: usize, dt: std::time::Duration) {
+    if alloc > 2048 * input_len + (64 << 10) { o.fail("C10", format!("{} requested {} bytes from the allocator for {} input bytes", what, alloc, input_len)); }
+    if dt > std::time::Duration::from_secs(2) { o.fail("C10", format!("{} took {:?} for {} input bytes", what, dt, input_len)); }
+}
+
 pub struct Oracle { pub fails: Vec<String> }
 impl Oracle { pub fn fail(&mut self, props: &str, why: String) { self.fails.push(format!("{}\t{}", props, why.replace(['\n', '\t'], " "))); } }
 
